@@ -310,6 +310,20 @@ pub fn generate(prop: &str, tier: &str, r: &mut Rng, out: &mut Vec<String>) -> G
             }
             GenInfo { rule: "seeded random messages of the domain of C01 (all 22 value kinds incl. raw-octet values, nested collections, mixed sets, repeated and empty groups) serialised by the real derive to JSON, rendered canonically, deserialised and compared; non-trivial = distinct messages".into(), exhaustive: false }
         }
+        "C15" => {
+            for (kind, unit) in crate::malformed::FAMILIES {
+                let mut bytes = if thorough { 1024 } else { 4096 };
+                let top = if thorough { 1024 * 1024 } else { 256 * 1024 };
+                for n in [1usize, 2, 7, 64] {
+                    out.push(format!("cost {} {}", kind, n));
+                }
+                while bytes <= top {
+                    out.push(format!("cost {} {}", kind, (bytes / unit.max(&1)).max(1)));
+                    bytes *= 2;
+                }
+            }
+            GenInfo { rule: "ten size-parameterised input families (nesting depth, set width, attributes, duplicate attributes, groups, members, unclosed begins, stray ends, maximal values, sets of collections; well-formed and malformed), n doubling from 4 KiB to 256 KiB of input (1 KiB to 1 MiB thorough) plus tiny sizes; for each the real parse is measured by a counting allocator (bytes and calls per input byte against absolute ceilings, growth factor on doubling <= 2.5, wall-clock backstop); consumed bytes compared with the model up to 4096 elements; non-trivial = distinct (family, n)".into(), exhaustive: false }
+        }
         "C04" => {
             let n = if thorough { 200_000 } else { 3_000 };
             let lim = crate::wiregen::WLimits { max_depth: if thorough { 6 } else { 4 }, malformed_per_mille: 8, boundary: true };
